@@ -210,8 +210,8 @@ theorem roundTrip_contract {P : Params} (hP : P.OK) {n0 : Nat} {ids0 : List Nat}
   fun h hn ⟨hu, hid, _⟩ => roundTrip_contract_wf hP h hn ⟨hu, hid, idsLt_of_fresh hfresh hn hid⟩
 
 /-- from the growth bookkeeping of the target to the `Owns` of target + source -/
-theorem merge_owns {h h' : Heap} {P : Params} {s s' o : Map} {n0 : Nat} (hn : n0 ≤ h.next)
-    (g : Grown h h' (owned s) (owned s') []) (hio : Inv P h o) (hdis : ∀ b, b ∈ owned s → b ∉ owned o) :
+theorem merge_owns {h h' : Heap} {P : Params} {s s' o : Map} {n0 : Nat} {X : List Nat} (hn : n0 ≤ h.next)
+    (g : Grown h h' (owned s) (owned s') X) (hio : Inv P h o) (hdis : ∀ b, b ∈ owned s → b ∉ owned o) :
     Owns h' h.ids (owned s ++ owned o) (owned s' ++ owned o) n0 := by
   refine ⟨fun b => ?_, fun b hb => ?_⟩
   · rw [g.ids b]
